@@ -18,7 +18,7 @@ PROP = "C13"
 LEVEL = "exploration"
 SHARDS = {"quick": 8, "thorough": 16}
 TIMEOUT = {"quick": 1500, "thorough": 10800}
-REQUIRED = {"seq.event": 3000, "thr.event": 1500, "preempt.event": 800, "root_unchanged": 100, "concat": 100, "generator": 200}
+REQUIRED = {"seq.event": 3000, "thr.event": 1500, "preempt.event": 800, "root_unchanged": 100, "concat": 100, "generator": 200, "capacity": 1}
 ANCHORS = ['base_wallet:BaseWallet.by_path', 'base_wallet:BaseWallet.address_generator', 'bip32:PrvKeyNode.ckd', 'bip32:PubKeyNode.ckd', 'bip32:PubKeyNode.generate_children', 'bip32:PubKeyNode.derive_path', 'base_wallet:BaseWallet.node_extended_keys', 'paper_wallet:PaperWallet.generate']
 RULE = ("random programs of 50-500 API calls (by_path, ckd, generate_children, derive_path, address generator next/send, five "
         "address kinds, node_extended_keys, extended keys, str, fingerprint, BIP85, generate/json/wasabi_json) over a pool of "
@@ -755,6 +755,74 @@ def preempt_pairs(ctx):
     return [p for i, p in enumerate(pairs) if ctx.mine(i)]
 
 
+def judge_capacity(ctx, case):
+    """Long-lived process state: one parent node serves N (> 2^14) derivations while the caller keeps two early children, a
+    running address generator and their printed data; afterwards the SAME child objects, asked again, must say what they
+    said before (path text, parent fingerprint, printed keys, wallet-level keys whose flavour is chosen from the path,
+    group row), the generator continues where it was, and a fresh look-up agrees.  A bounded cache / LRU of children / a
+    counter that wraps shows only beyond its capacity."""
+    from btc_hd_wallet.paper_wallet import PaperWallet
+    tn, N, kind = case["testnet"], case["n"], case["kind"]
+    m = rb32.master(case["seed"])
+    W = PaperWallet.from_bip39_seed_bytes(bip39_seed=case["seed"], testnet=tn)
+    coin = 1 if tn else 0
+    ppath = [84 + H, coin + H, 0 + H, 0]
+    if kind == "private":
+        wallet, parent, mark, private = W, W.by_path(rpath.fmt(ppath, "m")), "m", True
+        refparent, relpath = rb32.derive(m, ppath), list(ppath)
+    else:
+        acct = rb32.derive(m, ppath[:3])
+        wallet = PaperWallet.from_extended_key(extended_key=acct.xpub(rb32.version_for("pub", tn, 84)))
+        parent, mark, private = wallet.by_path("M/0"), "M", False
+        refparent, relpath = rb32.derive(m, ppath), [0]
+
+    def observe(node):
+        out = {"str": str(node), "pfp": bytes(node.parent_fingerprint), "xpub": node.extended_public_key(),
+               "keys": wallet.node_extended_keys(node), "row": [list(r) for r in wallet.group(nodes=[node], addr_fnc=wallet.p2wpkh_address)],
+               "addr": wallet.p2wpkh_address(node)}
+        if private:
+            out["xprv"] = node.extended_private_key()
+        return out
+
+    def expect(i):
+        ref = rb32.ckd_priv(refparent, i) if private else rb32.ckd_pub(refparent.neuter(), i)
+        return {"str": rpath.fmt(relpath + [i], mark), "pfp": refparent.fingerprint(), "xpub": ref.xpub(rb32.version_for("pub", tn, 44)),
+                "addr": raddr.p2wpkh(ref.sec(), tn)}
+    bad = []
+    try:
+        held = {i: parent.ckd(index=i) for i in (0, 5)}
+        gen_ = wallet.address_generator(parent, wallet.p2wpkh_address)
+        first = next(gen_)
+        before = {i: observe(n) for i, n in held.items()}
+        for i, n in held.items():
+            e = expect(i)
+            for k in e:
+                if before[i][k] != e[k]:
+                    bad.append(("before.%s" % k, e[k], before[i][k]))
+        done = 0
+        while done < N and not bad:
+            chunk = min(4096, N - done)
+            parent.generate_children(interval=(100 + done, 100 + done + chunk))
+            done += chunk
+        after = {i: observe(n) for i, n in held.items()}
+        for i in held:
+            for k in before[i]:
+                if after[i][k] != before[i][k]:
+                    bad.append(("held_child_%d.%s_changed_after_%d_derivations" % (i, k, N), before[i][k], after[i][k]))
+        second = next(gen_)
+        e1 = expect(1)
+        if tuple(second) != (e1["str"], e1["addr"]) or tuple(first) != (expect(0)["str"], expect(0)["addr"]):
+            bad.append(("generator_after_%d_derivations" % N, (e1["str"], e1["addr"]), tuple(second)))
+        fresh = parent.ckd(index=0)
+        if observe(fresh) != after[0]:
+            bad.append(("fresh_vs_held", "equal", "differ"))
+    except Exception as ex:  # noqa
+        bad.append(("raised", None, ex))
+    ctx.extra["capacity_derivations_on_one_parent"] = max(ctx.extra.get("capacity_derivations_on_one_parent", 0), N)
+    return ctx.judge("capacity", not bad, case, "held children unchanged after N more derivations on their parent", bad[:3],
+                     cls="capacity|%s|%s|n%d" % (kind, "test" if tn else "main", N), mech="C13.capacity." + (bad[0][0].split(".")[0].split("_after")[0] if bad else ""))
+
+
 def run(ctx):
     holder = {}
     inst = install_probes(ctx, holder)
@@ -764,12 +832,20 @@ def run(ctx):
         preemption_sweep(ctx, holder, preempt_pairs(ctx), "w", stride=1)
     finally:
         inst.remove()
+    # capacity scenarios run WITHOUT the probes (tens of thousands of derivations; the judged values are read at the API)
+    caps = [("public", (1 << 14) + 600)] if not ctx.thorough else [("public", (1 << 14) + 600), ("private", (1 << 14) + 600), ("public", (1 << 16) + 600),
+                                                                 ("private", (1 << 16) + 600), ("public", (1 << 17) + 600)]
+    for ci, (kind, n) in enumerate(caps):
+        if ctx.mine(ci + 3):
+            judge_capacity(ctx, {"seed": gen.rbytes(ctx.rnd, 32), "testnet": bool(ci & 1), "kind": kind, "n": n})
 
 
 def replay(ctx, monitor, case):
     """A witness names its program ('seq:<seed>:<shard>:<p>:<tier>' in case['world']); the same world and operation
     sequence are regenerated from that tag and re-run (several times for threaded programs: the workload is pinned, the
     schedule is re-sampled with the same yield-injection seed)."""
+    if monitor == "capacity":
+        return judge_capacity(ctx, case)
     holder = {}
     inst = install_probes(ctx, holder)
     try:
